@@ -46,13 +46,18 @@ func NewExec(s *scn.Scn) *Exec {
 	return &Exec{Scn: s, Out: &scn.Outcome{Faults: map[string]int64{}, Probes: map[string]int64{}}}
 }
 
-// Fail records a violation (the first one wins).
+// Fail records a violation (the first one wins). Clients may call it; the
+// scheduler serialises them, which the race detector cannot see, so neither
+// function is instrumented (they touch no map and no memory of the code under test).
+//
+//go:norace
 func (x *Exec) Fail(class, format string, args ...any) {
 	if x.Out.Violation == nil {
 		x.Out.Violation = &scn.Violation{Class: class, Detail: fmt.Sprintf(format, args...)}
 	}
 }
 
+//go:norace
 func (x *Exec) Failed() bool { return x.Out.Violation != nil }
 
 // Fault counts a fault that actually fired.
